@@ -36,7 +36,8 @@ def sub_len(l, Lc):
 def lin_v(t):
     """lin through expect/unwrap/to_usize/NonZero::new/get wrappers (value-preserving on the paths that continue)"""
     t = N.norm(t)
-    while N._callp(t, r'Option::expect$|Option::unwrap$|ToPrimitive::to_usize$|ToPrimitive::to_u64$|NonZero(::<.*>)?::new$|NonZero(::<.*>)?::get$'):
+    while N._callp(t, r'Option::expect$|Option::unwrap$|ToPrimitive::to_usize$|ToPrimitive::to_u64$|NonZero(::<.*>)?::new$|NonZero(::<.*>)?::get$') or \
+            (N._callp(t, r'Option::and_then$') and len(t[2]) == 2 and _is(t[2][1], 'fn') and re.search(r'NonZero.*::new$', str(t[2][1][1]))):
         t = N.norm(t[2][0])
     l = N.lin(t)
     out = {}
@@ -194,4 +195,141 @@ def check(rep, F, rule='FIXED-POINT'):
             rep.violation(rule, key, why, fn.where())
         else:
             rep.undecided(rule, key, why, fn.where())
+    return n
+
+
+def check_no_integer(rep, F, rule='FIXED-POINT'):
+    """format_ascii_digits_no_integer(D, scale, target): a pure fraction 0.00ddd (leading zeros = scale - len(D)).
+    Rounding point inside the digits (target > leading zeros):
+        round_ascii_digits keeps n = target - (scale - len) digits; the output is target + 2 bytes ("0." + target digits);
+        the (rounded) digits are moved so that their last one lands at fractional position s = scale - delta:
+        destination + len' - 2 == s;  byte 1 is the point.
+    Rounding point at or before the first digit: the single rounded digit is the last of target + 2 bytes; the
+        insignificant digit is D[0] when the point is exactly before it and 0 (with all of D as the tail) when it is
+        further left."""
+    fn = F.fns.get('impl_fmt::format_ascii_digits_no_integer')
+    if fn is None:
+        rep.violation(rule, 'format_ascii_digits_no_integer:missing', 'anchor function not found (fail closed)')
+        return 0
+    rep.add_functions([fn.name])
+    try:
+        pe = TB.PathEnum(F, fn, max_paths=600, cut_loops=True)
+        paths = pe.run()
+    except Undecided as e:
+        rep.undecided(rule, fn.key + ':layout', str(e), fn.where())
+        return 0
+    scale, target = {('param', 2): 1}, {('param', 3): 1}
+    L0 = {('sym', 'len0'): 1}
+    lz = N.add(scale, L0, -1)
+    cells = {}
+
+    def put(cell, ok, good, bad):
+        cur = cells.get(cell)
+        if cur is None or (cur[0] and not ok):
+            cells[cell] = (ok, good if ok else bad)
+
+    def is_diff1(k):
+        return _is(k, 'field') and k[2] == '1' and N._callp(N.norm(k[1]), r'arithmetic::diff$')
+
+    for (atoms, out), eff in zip(paths, pe.effects):
+        if not N.consistent(atoms):
+            continue
+        regime = None
+        inter_pos = None
+        nz_scale = None
+        for a, c in atoms:
+            a0 = N.norm(a)
+            if _is(a0, 'discr') and _is(N.norm(a0[1]), 'field') and N.norm(a0[1])[2] == '0' and N._callp(N.norm(N.norm(a0[1])[1]), r'arithmetic::diff$'):
+                dcall = N.norm(N.norm(a0[1])[1])
+                x, y = sub_len(lin_v(dcall[2][0]), L0), sub_len(lin_v(dcall[2][1]), L0)
+                if N.add(x, target, -1) or N.add(y, lz, -1):
+                    put('regime-test', False, '', 'the regime must be chosen by comparing target with the leading-zero count scale - len; it compares %s with %s' % (N.show_lin(x), N.show_lin(y)))
+                else:
+                    put('regime-test', True, 'compares target with scale - len(D)', '')
+                if c[0] == 'eq':
+                    regime = {255: 'Less', 0: 'Equal', 1: 'Greater'}.get(c[1])
+                elif c[0] == 'notin':
+                    rest = {255, 0, 1} - set(c[1])
+                    regime = 'Greater' if rest == {1} else ('LessEq' if rest <= {255, 0} else None)
+            if _is(a0, 'bin') and a0[1] in ('Gt', 'Ge', 'Ne', 'Eq', 'Lt', 'Le') and _is(N.norm(a0[3]), 'const') and is_diff1(N.norm(a0[2])):
+                if a0[1] == 'Gt' and N.norm(a0[3]) == ('const', 0):
+                    inter_pos = not (c == ('eq', 0))
+                elif a0[1] == 'Ne' and N.norm(a0[3]) == ('const', 0):
+                    inter_pos = not (c == ('eq', 0))
+                else:
+                    put('insignificant-digit-threshold', False, '', 'the insignificant digit is 0 exactly when at least one zero lies between the rounding point and the first digit (distance > 0); the code tests %s %s' % (a0[1], TB.show(N.norm(a0[3]))))
+        if regime is None:
+            continue
+
+        def L(t, Lc):
+            l = sub_len(lin_v(t), Lc)
+            outl = {}
+            for k, cf in l.items():
+                if is_diff1(k):
+                    d = N.add(target, lz, -1) if regime == 'Greater' else N.add(lz, target, -1)
+                    outl = N.add(outl, d, cf)
+                else:
+                    outl = N.add(outl, {k: 1}, cf)
+            return outl
+
+        Lc = dict(L0)
+        s = dict(scale)
+        ver = 0
+        if regime == 'Greater':
+            for callee, args in eff:
+                c = TB._plain(callee)
+                if c.endswith('round_ascii_digits') and len(args) >= 2:
+                    n = L(args[1], Lc)
+                    want = N.add(target, lz, -1)
+                    put('rounding-position', not N.add(n, want, -1), 'keeps target - (scale - len) digits', 'round_ascii_digits must keep target - (scale - len) digits; it is asked to keep %s' % N.show_lin(n))
+                    s = N.add(s, lin_v(TB.T('call', callee, tuple(args))), -1)
+                    ver += 1
+                    Lc = {('sym', 'len%d' % ver): 1}
+                elif c.endswith('Vec::resize') and len(args) == 3:
+                    nl = L(args[1], Lc)
+                    put('output-length', not N.add(nl, N.add(target, {1: 2}), -1) and N.norm(args[2]) == ('const', 48), 'output is target + 2 bytes of b\'0\'', 'the output must be resized to target + 2 bytes of b\'0\' ("0." + target digits); resized to %s' % N.show_lin(nl))
+                elif c.endswith('copy_within') and len(args) >= 3:
+                    r = N.norm(args[1])
+                    cnt = L(r[3][0], Lc) if _is(r, 'adt') and r[2] == 'RangeTo' else None
+                    dst = L(args[2], Lc)
+                    okc = cnt is not None and not N.add(cnt, Lc, -1)
+                    # the last moved digit lands at byte dst + len' - 1, i.e. fractional position dst + len' - 2
+                    res_ = N.add(N.add(N.add(dst, Lc), {1: 2}, -1), s, -1)
+                    put('digits-destination', okc and not res_, 'the last significant digit lands at fractional position scale - removed digits', 'after the move the last significant digit must sit at fractional position scale - delta; residual %s' % N.show_lin(res_))
+                elif re.search(r'IndexMut::index_mut$', c) and len(args) == 2 and N.norm(args[1]) == ('const', 1):
+                    put('point-slot', True, 'byte 1 is overwritten (the point)', '')
+        else:
+            insig = None
+            for callee, args in eff:
+                c = TB._plain(callee)
+                if c.endswith('from_digit_and_lazy_trailing_zeros') and len(args) == 3:
+                    d = N.norm(args[1])
+                    clo = N.norm(args[2])
+                    cap = N.norm(clo[2][0]) if _is(clo, 'closure') and clo[2] else None
+                    whole = cap is not None and (cap == ('param', 1) or (N._callp(cap, r'Vec::as_slice$|Deref::deref$') and N.norm(cap[2][0]) == ('param', 1)))
+                    rest = cap is not None and N._callp(cap, r'Index::index$') and N.norm(cap[2][0]) == ('param', 1) and _is(N.norm(cap[2][1]), 'adt') and N.norm(cap[2][1])[2] == 'RangeFrom' and N.norm(N.norm(cap[2][1])[3][0]) == ('const', 1)
+                    if inter_pos is True:
+                        put('tail[left-of-digits]', whole, 'every digit of D is below the insignificant place: the tail is all of D', 'when the rounding point lies left of the first digit every digit belongs to the tail; the tail inspected is %s' % (TB.show(cap)[:60] if cap else '?'))
+                    elif inter_pos is False:
+                        put('tail[at-first-digit]', rest, 'the tail is D[1..]', 'when D[0] is the insignificant digit the tail is D[1..]; the tail inspected is %s' % (TB.show(cap)[:60] if cap else '?'))
+                    if inter_pos is True:
+                        put('insignificant-digit[left-of-digits]', d == ('const', 0), 'rounding point further left than the first digit: insignificant digit 0', 'when the rounding point lies left of the first digit the insignificant digit is 0; found %s' % TB.show(d)[:60])
+                    elif inter_pos is False:
+                        ok = _is(d, 'bin') and d[1] == 'Sub' and N.norm(d[3]) == ('const', 48) and _is(N.norm(d[2]), 'index') and N.norm(N.norm(d[2])[1]) == ('param', 1) and len(N.norm(d[2])) == 3 and N.norm(N.norm(d[2])[2]) == ('const', 0)
+                        ok = ok or (N._callp(N.norm(d[2]) if _is(d, 'bin') else None, r'Index::index$') and N.norm(N.norm(d[2])[2][1]) == ('const', 0))
+                        put('insignificant-digit[at-first-digit]', bool(ok), 'rounding point just before the first digit: insignificant digit D[0] - b\'0\'', 'when the rounding point is just before the first digit the insignificant digit is D[0] - b\'0\'; found %s' % TB.show(d)[:60])
+                elif c.endswith('Vec::resize') and len(args) == 3:
+                    nl = sub_len(lin_v(args[1]), {})
+                    put('output-length[left]', not N.add(nl, N.add(target, {1: 1}), -1) and N.norm(args[2]) == ('const', 48), 'target + 1 zeros, then the rounded digit: target + 2 bytes', 'before the rounded digit is pushed the buffer must hold target + 1 zeros; it holds %s' % N.show_lin(nl))
+                elif c.endswith('Vec::push') and len(args) == 2:
+                    v = N.norm(args[1])
+                    put('rounded-digit-last', _is(v, 'bin') and v[1] == 'Add' and N.norm(v[3]) == ('const', 48) and N._callp(N.norm(v[2]), r'round_digit$'), 'the rounded digit is the last byte', 'the rounded digit (plus b\'0\') must be pushed as the last byte')
+    n = 0
+    for cell, (ok, why) in sorted(cells.items()):
+        n += 1
+        key = '%s:layout[%s]' % (fn.key, cell)
+        if ok:
+            rep.ok(rule, key, why, fn.where())
+        else:
+            rep.violation(rule, key, why, fn.where())
     return n
